@@ -505,7 +505,7 @@ func typedEmbeddedPtr(repU *Report) {
 // fields promoted through embedded pointers, through the JSON front end, against encoding/json (C20)
 func jsonEmbeddedPtr(repU *Report) {
 	show := func(v any) string { b, _ := json.Marshal(v); return string(b) }
-	for _, doc := range []string{`{"X":5,"Z":2}`, `{"Z":2}`, `{"S":"a","X":1}`, `{"W":3,"X":7}`, `{"X":1,"X":2}`} {
+	for _, doc := range []string{`{"X":5,"Z":2}`, `{"Z":2}`, `{"S":"a","X":1}`, `{"W":3,"X":7}`, `{"X":1,"X":2}`, `{"X":null}`, `{"S":null,"Z":1}`, `{"X":null,"X":3}`, `{"W":null}`} {
 		for _, mk := range []func() any{func() any { return &WithEmbPtr{} }, func() any { return &WithEmbPtrDeep{} }} {
 			a, b := mk(), mk()
 			e := guard(func() error { return copyBudget(sb.DecodeJson(strings.NewReader(doc), nil), sb.Unmarshal(a)) })
